@@ -52,6 +52,16 @@ func c05Vectors() []c05Vector {
 		{name: "symlink-in-same-list", names: func(string) [][]byte { return [][]byte{[]byte("s"), []byte("s/x")} }, setup: 1},
 		{name: "parent-itself", names: one("..")},
 		{name: "dotdot-dir-entry", names: one("../canary/dir")},
+		// the hostile entry lies several levels below the escaping component and its parents are
+		// not listed: whatever creates the implied parent directories must be confined too
+		{name: "dotdot-implied-parents", names: one("../canary/newa/newb")},
+		{name: "dotdot-implied-new-top", names: one("../newtop/a/b")},
+		{name: "dotdot-nested-implied-parents", names: one("sub/../../newtop2/a/b")},
+		{name: "absolute-implied-parents", names: func(abs string) [][]byte { return [][]byte{[]byte(abs + "/canary/newa/newb")} }},
+		{name: "preexisting-dir-symlink-implied-parents", pre: tm.Tree{tm.L("out", "../canary")}, names: one("out/newa/newb")},
+		{name: "preexisting-dir-symlink-deep-existing", pre: tm.Tree{tm.L("out", "../canary")}, names: one("out/dir/x")},
+		{name: "symlink-in-same-list-implied-parents", names: func(string) [][]byte { return [][]byte{[]byte("s"), []byte("s/newa/newb")} }, setup: 1},
+		{name: "symlink-in-same-list-deep-existing", names: func(string) [][]byte { return [][]byte{[]byte("s"), []byte("s/dir/x")} }, setup: 1},
 	}
 }
 
